@@ -75,11 +75,16 @@ def run(ctx):
         quiet_from = total          # evaluations >= this index: no faults, budget refilled
         violated = [False]
 
+        intent = {}       # name -> the scale policy the operator configured last (a count-only update keeps it)
+
         def configure(name, count, policy):
+            if policy is not None:
+                intent[name] = policy
             masterapi.update_appmonitor(admin, name, count, policy)
 
         def drop_monitor(name):
             masterapi.delete_appmonitor(admin, name)
+            intent.pop(name, None)
             ctx.count('monitors_deleted')
 
         seen = {}         # name -> mzxid of the monitor node last seen
@@ -103,7 +108,7 @@ def run(ctx):
                         count = data['count']
                     except Exception:      # noqa
                         continue
-                    ref[name] = dict(count=count, policy=data.get('policy'), tokens=2.0 * count,
+                    ref[name] = dict(count=count, policy=intent.get(name), tokens=2.0 * count,
                                      last=node.mtime / 1000.0, rate=2.0 * count / 3600.0, czxid=node.czxid)
 
         def fake_post(api, url, payload=None, headers=None, **_kw):
@@ -279,7 +284,7 @@ def run(ctx):
                 return
             clock.advance(rng.choice([1, 1, 1, 1, 5, 30, 120, 300, 301, 1800, 3600, 7200]) if rng.random() < 0.35 else 1.0)
             for _ in range(rng.choice([0, 1, 1, 2])):
-                op = rng.choice(['die', 'die', 'die', 'count', 'count', 'policy', 'delmon', 'newmon', 'fail', 'fail', 'faildel'])
+                op = rng.choice(['die', 'die', 'die', 'count', 'count', 'policy', 'delmon', 'newmon', 'fail', 'fail', 'faildel', 'flap'])
                 name = rng.choice(apps)
                 if op == 'die':
                     cur = scheduled_of(name)
@@ -297,6 +302,10 @@ def run(ctx):
                     fail_next[name] = rng.choice(['notfound', 'badrequest', 'validation', 'other'])
                 elif op == 'faildel':
                     fail_delete[0] = 1
+                elif op == 'flap':
+                    # the monitor's connection drops and comes back: no monitor was reconfigured
+                    zk.flap()
+                    ctx.count('connection_flaps')
 
         quiet_from = total
         try:
